@@ -60,18 +60,22 @@ def make_settings(rng, d):
                                            filter_corner_frequencies_in_hz=[None, None], orient_to_degrees_from_north=0.0)
     sm = dict(operator="konno_and_ohmachi", bandwidth=40.0, center_frequencies_in_hz=np.geomspace(0.5, 40, 16))
     kind = str(rng.choice(["traditional", "traditional", "azimuthal", "diffuse_field"]))
+    # the settings file may carry an explicit fft_settings dict (un-padded FFT, a user length, or an empty dict)
+    fft = [None, None, {"n": None}, {"n": 32768}, {}][int(rng.integers(0, 5))]
+    if kind == "diffuse_field" and fft == {"n": None}:
+        fft = {"n": 32768}          # un-padded odd lengths are not supported by the PSD path (outside the statement)
     if kind == "traditional":
-        proc = hvsrpy.HvsrTraditionalProcessingSettings(smoothing=sm, window_type_and_width=("tukey", 0.1),
+        proc = hvsrpy.HvsrTraditionalProcessingSettings(smoothing=sm, window_type_and_width=("tukey", 0.1), fft_settings=fft,
                                                         method_to_combine_horizontals=str(rng.choice(["geometric_mean", "squared_average"])))
     elif kind == "azimuthal":
-        proc = hvsrpy.HvsrAzimuthalProcessingSettings(smoothing=sm, window_type_and_width=("tukey", 0.1),
+        proc = hvsrpy.HvsrAzimuthalProcessingSettings(smoothing=sm, window_type_and_width=("tukey", 0.1), fft_settings=fft,
                                                       azimuths_in_degrees=np.array([0.0, 45.0, 90.0]))
     else:
-        proc = hvsrpy.HvsrDiffuseFieldProcessingSettings(smoothing=sm, window_type_and_width=("tukey", 0.1))
+        proc = hvsrpy.HvsrDiffuseFieldProcessingSettings(smoothing=sm, window_type_and_width=("tukey", 0.1), fft_settings=fft)
     pre_f, proc_f = os.path.join(d, "pre.json"), os.path.join(d, "proc.json")
     pre.save(pre_f)
     proc.save(proc_f)
-    return pre_f, proc_f, kind, wl
+    return pre_f, proc_f, kind + ("" if fft is None else f" fft_settings={fft}"), wl
 
 
 def env_for():
